@@ -1,3 +1,105 @@
-//! C14 (stub: no cases yet)
+//! C14 — Parser operations vs the free string functions; split protocols vs std.
+use crate::c13::{free_fn, Op, OPS};
 use crate::common::*;
-pub fn run(_cfg: &Cfg, _out: &mut Out) {}
+use konst::parsing::Parser;
+
+fn parser_one(s: &str, op: Op) -> String {
+    // re-use c13's trace on a single op and strip it down to ok(<remainder>) / err
+    let (tr, _) = crate::c13::trace(s, 0, &[op]);
+    if tr.starts_with("[ok(") {
+        let inner: Vec<&str> = tr[4..tr.len() - 2].split(',').collect();
+        format!("ok({})", inner[2])
+    } else if tr.starts_with("[err(") {
+        "err".into()
+    } else {
+        tr
+    }
+}
+
+fn protocol(s: &str, d: &'static str, kind: &str) -> String {
+    let mut p = Parser::new(s);
+    let mut v: Vec<String> = Vec::new();
+    for _ in 0..s.len() + 4 {
+        let r = match kind {
+            "split" => p.split(d),
+            "rsplit" => p.rsplit(d),
+            "split_terminator" => p.split_terminator(d),
+            _ => p.rsplit_terminator(d),
+        };
+        match r {
+            Ok((piece, q)) => {
+                v.push(hex(piece.as_bytes()));
+                p = q;
+            }
+            Err(e) => {
+                v.push(format!("{:?}", e.kind()));
+                return format!("[{}]", v.join(","));
+            }
+        }
+    }
+    v.push("RUNAWAY".into());
+    format!("[{}]", v.join(","))
+}
+
+fn protocol_std(s: &str, d: &str, kind: &str) -> String {
+    let mut v: Vec<String> = Vec::new();
+    match kind {
+        "split" => {
+            v.extend(s.split(d).map(|p| hex(p.as_bytes())));
+            v.push("SplitExhausted".into());
+        }
+        "rsplit" => {
+            v.extend(s.rsplit(d).map(|p| hex(p.as_bytes())));
+            v.push("SplitExhausted".into());
+        }
+        "split_terminator" => {
+            // each piece that is followed by a delimiter, then fail
+            let ps: Vec<&str> = s.split(d).collect();
+            v.extend(ps[..ps.len() - 1].iter().map(|p| hex(p.as_bytes())));
+            v.push(if ps.len() > 1 && ps[ps.len() - 1].is_empty() { "SplitExhausted" } else { "DelimiterNotFound" }.into());
+        }
+        _ => {
+            let ps: Vec<&str> = s.rsplit(d).collect();
+            v.extend(ps[..ps.len() - 1].iter().map(|p| hex(p.as_bytes())));
+            v.push(if ps.len() > 1 && ps[ps.len() - 1].is_empty() { "SplitExhausted" } else { "DelimiterNotFound" }.into());
+        }
+    }
+    format!("[{}]", v.join(","))
+}
+
+pub fn run(cfg: &Cfg, out: &mut Out) {
+    let alpha = ['a', 'b', 'é', '-', ' '];
+    let strs = all_strings(&alpha, if cfg.thorough { 5 } else { 4 });
+    for s in &strs {
+        for op in OPS {
+            if matches!(op, Op::Split(_) | Op::RSplit(_) | Op::SplitKeep(_)) {
+                continue;
+            }
+            if let Some(fr) = free_fn(s, op) {
+                let args = format!("{} {}", hex(s.as_bytes()), op.desc());
+                let imp = parser_one(s, op);
+                let fr_s = match fr {
+                    Some(r) => format!("ok({})", hex(r.as_bytes())),
+                    None => "err".to_string(),
+                };
+                let tag = if fr.map_or(true, |r| r.len() != s.len()) { "effect" } else { "-" };
+                out.line("c14.free", &args, &imp, &fr_s, tag);
+            }
+        }
+        for d in ["-", "a", "ab", "é", "--"] {
+            for kind in ["split", "rsplit", "split_terminator", "rsplit_terminator"] {
+                let args = format!("{} {} {}", hex(s.as_bytes()), hex(d.as_bytes()), kind);
+                let tag = if s.contains(d) { "delim" } else { "-" };
+                out.line("c14.split", &args, &protocol(s, d, kind), &protocol_std(s, d, kind), tag);
+            }
+        }
+    }
+    // F1 shapes through the Parser
+    for (s, d) in [("aaab", "aab"), ("abbb", "abb"), ("ababab", "abab")] {
+        for kind in ["split", "rsplit", "split_terminator", "rsplit_terminator"] {
+            let args = format!("{} {} {}", hex(s.as_bytes()), hex(d.as_bytes()), kind);
+            let dd: &'static str = Box::leak(d.to_string().into_boxed_str());
+            out.line("c14.split", &args, &protocol(s, dd, kind), &protocol_std(s, d, kind), "delim");
+        }
+    }
+}
